@@ -209,6 +209,8 @@ def run_race(i):
         mixed = i % 3 == 2
         if mixed:
             env["RACEDRV_MIXED"] = "1"
+        if (i // 3) % 2 == 1:
+            env["RACEDRV_ARGS"] = "1"           # the racers pass different pid arguments
         if i % 2:
             env["OVNI_TMPDIR"] = os.path.join(wd, "tmp")
         res["mixed"] = mixed
